@@ -123,6 +123,9 @@ pub enum Step {
     TEdge { from: u8, to: u8, ty: u8, directed: bool, u: u32 },
     TEdgeDel { e: u8 },
     Blob { len: u16, u: u32 },
+    /// one of the appended chunks is marked as garbage and the blob log compacted
+    /// (live chunks move to fresh segments)
+    BlobDrop { pick: u8 },
     Save { fmt: Fmt, p: u8 },
     /// Bytes-form round trip. For `StoreOver` the receiving store is prepared by
     /// its own fill program `target` (any fill step kind; Save/Bytes inside are
@@ -362,13 +365,17 @@ fn slab_schema(t: u8) -> TableSchema {
     if t % 3 == 2 {
         TableSchema::new(vec![ColumnDef::new("only", ColumnType::Float, true)])
     } else {
+        // every second table of this shape declares half of its columns NOT NULL; the rows are
+        // the same (the slab leaves the enforcement of the flag to the layers above, so a
+        // NULL in such a column is store content like any other)
+        let n = t % 3 == 0;
         TableSchema::new(vec![
             ColumnDef::new("id", ColumnType::Int, false),
-            ColumnDef::new("ci", ColumnType::Int, true),
-            ColumnDef::new("cf", ColumnType::Float, true),
+            ColumnDef::new("ci", ColumnType::Int, n),
+            ColumnDef::new("cf", ColumnType::Float, n),
             ColumnDef::new("cs", ColumnType::String, true),
-            ColumnDef::new("cb", ColumnType::Bool, true),
-            ColumnDef::new("cx", ColumnType::Bytes, true),
+            ColumnDef::new("cb", ColumnType::Bool, n),
+            ColumnDef::new("cx", ColumnType::Bytes, n),
             ColumnDef::new("cj", ColumnType::Json, true),
         ])
         .with_primary_key("id")
@@ -1447,6 +1454,17 @@ impl<'a> Trial<'a> {
                     self.blob_hashes.push(h.as_u64());
                 }
             },
+            Step::BlobDrop { pick } => {
+                if !self.blob_hashes.is_empty() {
+                    // the hash stays in the list: the dump shows the dropped chunk as absent,
+                    // and so must every copy of the store
+                    let h = self.blob_hashes[*pick as usize % self.blob_hashes.len()];
+                    let r = self.live.router();
+                    r.blobs.mark_garbage(&ChunkHash(h));
+                    r.blobs.compact();
+                    self.ctx.probe("blob_log_compacted");
+                }
+            },
             Step::Save { .. } | Step::Bytes { .. } => {},
         }
     }
@@ -2020,6 +2038,7 @@ fn gen_fill(rng: &mut Rng, r: u64, cfg: u8, nkeys: u64, nu: &mut dyn FnMut() -> 
             u: nu(),
         },
         72..=74 => Step::TEdgeDel { e: rng.below(8) as u8 },
+        _ if rng.chance(1, 4) => Step::BlobDrop { pick: rng.below(8) as u8 },
         _ => Step::Blob { len: if rng.chance(1, 4) { rng.range(200, 700) as u16 } else { rng.below(40) as u16 }, u: nu() },
     }
 }
@@ -2246,7 +2265,7 @@ impl Scenario for C07 {
                                 Step::Table { .. } | Step::Rows { .. } | Step::RowDel { .. } | Step::RowUpd { .. } | Step::Index { .. } => "rel",
                                 Step::Emb { .. } => "emb",
                                 Step::TEdge { .. } | Step::TEdgeDel { .. } => "tedge",
-                                Step::Blob { .. } => "blob",
+                                Step::Blob { .. } | Step::BlobDrop { .. } => "blob",
                                 Step::GNode { .. } | Step::GEdge { .. } => "gr",
                                 _ => "fill",
                             })
@@ -2259,6 +2278,7 @@ impl Scenario for C07 {
                 Step::Emb { .. } => "emb",
                 Step::TEdge { .. } => "tedge",
                 Step::Blob { .. } => "blob",
+                Step::BlobDrop { .. } => "blob-drop",
                 Step::PutD { .. } | Step::DelD { .. } => "logged",
                 Step::Sync => "sync",
                 _ => "fill",
